@@ -966,7 +966,8 @@ def body_cross(c):
 
 @st.composite
 def api_case(draw):
-    return {'seed': draw(gen.SEED), 'which': draw(st.sampled_from(['canonical', 'tjm', 'simon', 'amuset_extras', 'hod_previous', 'mandy']))}
+    return {'seed': draw(gen.SEED), 'which': draw(st.sampled_from(['canonical', 'tjm', 'simon', 'amuset_extras', 'hod_previous', 'mandy', 'order1_solvers',
+                                                                'order1_solvers']))}
 
 
 def body_api(c):
@@ -982,6 +983,30 @@ def body_api(c):
             require(t.row_dims == dims, 'returned_inconsistent', 'canonical: rows %s' % t.row_dims)
         elif w == 'simon':
             require_consistent(mdl.simon(), 'returned_inconsistent')
+        elif w == 'order1_solvers':
+            # one-core trains (a plain matrix equation in TT clothing): boundary stacks are trivial there, which is where a solver
+            # may end up working directly on the buffers of its arguments
+            n = int(rng.integers(2, 6))
+            S_ = rng.standard_normal((n, n))
+            A_ = TT([(np.eye(n) * n + 0.3 * (S_ + S_.T)).reshape(1, n, n, 1)])
+            b_ = TT([rng.standard_normal((1, n, 1, 1))])
+            g_ = TT([rng.standard_normal((1, n, 1, 1))])
+            snaps = [(t, build.snapshot(t), nm) for t, nm in ((A_, 'operator'), (b_, 'right-hand side'), (g_, 'initial guess'))]
+            outs = []
+            for solver in ('solve', 'lu'):
+                outs.append(sle.als(A_, g_, b_, repeats=1 + int(rng.integers(0, 2)), solver=solver))
+                for t, s_, nm in snaps:
+                    msg = build.unchanged(t, s_)
+                    require(msg is None, 'operand_changed', 'sle.als(solver=%s) on one-core trains: %s %s' % (solver, nm, msg))
+            outs += list(ode.implicit_euler(-1.0 * A_, b_, g_, [0.1, 0.1], progress=False, micro_solver='lu')[1:])
+            outs += list(ode.trapezoidal_rule(-1.0 * A_, b_, g_, [0.1], progress=False, micro_solver='lu')[1:])
+            ev_, et_, _ = evp.als(A_, g_, repeats=1, conv_eps=0, solver='eigh')
+            outs.append(et_)
+            for t, s_, nm in snaps:
+                msg = build.unchanged(t, s_)
+                require(msg is None, 'operand_changed', 'solvers / integrators on one-core trains: %s %s' % (nm, msg))
+            for o in outs:
+                require_consistent(o, 'returned_inconsistent')
         elif w == 'tjm':
             L = int(rng.integers(2, 4))
             H = rng.standard_normal((2 ** L, 2 ** L))
@@ -1057,5 +1082,5 @@ SUBCHECKS = [
         classes=['nontrivial_history', 'inplace_on_derived'] + ['op:' + k for k in sorted(set(WEIGHTED))]),
     Sub('cross_product', None, body_cross, lambda l: 'followup_applied' in l, quick=0, thorough=0, shards_quick=16, shards_thorough=16,
         cases=CROSS_CASES, classes=['followup_applied']),
-    Sub('api_sweep', api_case(), body_api, lambda l: True, quick=30, thorough=200, shards_quick=4, classes=['api:canonical', 'api:tjm', 'api:hod_previous']),
+    Sub('api_sweep', api_case(), body_api, lambda l: True, quick=30, thorough=200, shards_quick=4, classes=['api:canonical', 'api:tjm', 'api:hod_previous', 'api:order1_solvers']),
 ]
